@@ -147,6 +147,10 @@ type RIB struct {
 	// can be fully resolved in the RIB. In the current implementation it
 	// is called only for IPv4 entries.
 	resolvedEntryHook ResolvedEntryFn
+
+	// postChangeHook is the hook assigned by SetPostChangeHook, stored such that
+	// it can be applied to network instances that are created subsequently.
+	postChangeHook RIBHookFn
 }
 
 // RIBHolder is a container for a set of RIBs.
@@ -340,7 +344,14 @@ type pendingEntry struct {
 // SetPostChangeHook assigns the supplied hook to all network instance RIBs within
 // the RIB structure.
 func (r *RIB) SetPostChangeHook(fn RIBHookFn) {
+	r.nrMu.Lock()
+	r.postChangeHook = fn
+	nirs := make([]*RIBHolder, 0, len(r.niRIB))
 	for _, nir := range r.niRIB {
+		nirs = append(nirs, nir)
+	}
+	r.nrMu.Unlock()
+	for _, nir := range nirs {
 		nir.mu.Lock()
 		nir.postChangeHook = fn
 		nir.mu.Unlock()
@@ -380,6 +391,7 @@ func (r *RIB) AddNetworkInstance(name string) error {
 	}
 
 	r.niRIB[name] = NewRIBHolder(name, rhOpt...)
+	r.niRIB[name].postChangeHook = r.postChangeHook
 	return nil
 }
 
